@@ -111,6 +111,40 @@ func init() {
 		f.bigStore(st, z.T, fmt.Sprintf("(* %s (pow2 %s))", f.bigVal(st, x.T), n.T))
 		return []Val{z}
 	})
+	reg("Rsh", func(f *Frame, st *State, call *ast.CallExpr, recv ast.Expr) []Val {
+		z := f.eval(st, recv)
+		x := f.eval(st, call.Args[0])
+		n := f.eval(st, call.Args[1])
+		f.panicSite(st, "bigrsh_range", fmt.Sprintf("(<= %s 128)", n.T), call.Pos())
+		// floor division by 2^n (math/big Rsh rounds toward negative infinity)
+		f.bigStore(st, z.T, fmt.Sprintf("(div %s (pow2 %s))", f.bigVal(st, x.T), n.T))
+		return []Val{z}
+	})
+	reg("QuoRem", func(f *Frame, st *State, call *ast.CallExpr, recv ast.Expr) []Val {
+		// z.QuoRem(x, y, r): truncated division; modelled for non-negative operands (obligation)
+		z := f.eval(st, recv)
+		x := f.eval(st, call.Args[0])
+		y := f.eval(st, call.Args[1])
+		r := f.eval(st, call.Args[2])
+		xv, yv := f.bigVal(st, x.T), f.bigVal(st, y.T)
+		f.panicSite(st, "bigdiv0", fmt.Sprintf("(not (= %s 0))", yv), call.Pos())
+		f.panicSite(st, "bigquorem_nonneg", fmt.Sprintf("(and (>= %s 0) (> %s 0))", xv, yv), call.Pos())
+		q := f.c.define("bigq", "Int", fmt.Sprintf("(div %s %s)", xv, yv))
+		m := f.c.define("bigr", "Int", fmt.Sprintf("(mod %s %s)", xv, yv))
+		f.bigStore(st, z.T, q)
+		f.bigStore(st, r.T, m)
+		return []Val{z, r}
+	})
+	reg("BitLen", func(f *Frame, st *State, call *ast.CallExpr, recv ast.Expr) []Val {
+		x := f.eval(st, recv)
+		a := f.bigVal(st, x.T)
+		n := f.havoc(st, "bitlen", types.Typ[types.Int])
+		st.assume(fmt.Sprintf("(>= %s 0)", n.T))
+		st.assume(fmt.Sprintf("(=> (= %s 0) (= %s 0))", a, n.T))
+		st.assume(fmt.Sprintf("(=> (and (> (abs %s) 0) (< (abs %s) %s)) (and (<= %s 128) (<= (pow2 (- %s 1)) (abs %s)) (< (abs %s) (pow2 %s))))", a, a, pow2(128).String(), n.T, n.T, a, a, n.T))
+		st.assume(fmt.Sprintf("(=> (>= (abs %s) %s) (> %s 128))", a, pow2(128).String(), n.T))
+		return []Val{n}
+	})
 	reg("Set", func(f *Frame, st *State, call *ast.CallExpr, recv ast.Expr) []Val {
 		z := f.eval(st, recv)
 		x := f.eval(st, call.Args[0])
